@@ -8,6 +8,7 @@ import queue
 import threading
 import inspect
 import linecache
+import os
 import operator
 import sys
 import types
@@ -45,8 +46,15 @@ _module_ast = {}
 
 def module_tree(filename):
     if filename not in _module_ast:
-        linecache.checkcache(filename)
-        with open(filename, encoding="utf-8") as fh:
+        path = filename
+        if filename.startswith("<frozen ") and filename.endswith(">"):
+            # frozen stdlib module (e.g. _collections_abc): its source is the .py file of the same name
+            import sys as _sys
+            name = filename[len("<frozen "):-1]
+            mod = _sys.modules.get(name)
+            path = getattr(mod, "__file__", None) or os.path.join(os.path.dirname(os.__file__), name.replace(".", os.sep) + ".py")
+        linecache.checkcache(path)
+        with open(path, encoding="utf-8") as fh:
             src = fh.read()
         tree = ast.parse(src, filename)
         index = {}
@@ -360,6 +368,11 @@ class Interp(object):
 
     def should_interpret(self, fn):
         mod = getattr(fn, "__module__", None) or ""
+        if isinstance(fn, types.FunctionType) and mod in ("_collections_abc", "collections.abc") and \
+                fn.__qualname__.split(".")[0] in ("MutableMapping", "Mapping", "MutableSequence", "Sequence", "MutableSet", "Set"):
+            # the mixin methods gffutils' classes inherit (Attributes is a MutableMapping): pure python written in terms
+            # of the class's own __getitem__ / __setitem__ / __contains__ - interpreted like the repository's code
+            return True
         return isinstance(fn, types.FunctionType) and any(
             mod == p or mod.startswith(p + ".") for p in self.prefixes) and ".test" not in mod
 
